@@ -812,11 +812,12 @@ func (st *runState) finishWith(ri *simcheck.RunInfo, sim *simrt.Sim, sys *System
 						xx.TsNs = ts
 						sig := st.classifyIndexMiss(l.b.Node, f, tp, lo, hi, have, r, &xx)
 						for on, m := range seriesAtN {
-							for d := lo; d <= hi && on != l.b.Node; d++ {
+							// (only when the history of this node does not explain the miss)
+							for d := lo; d <= hi && on != l.b.Node && strings.HasPrefix(sig, "no series row at all"); d++ {
 								for _, tt := range []uint64{tp, 0} {
 									for _, ev := range m[fmt.Sprintf("%d|%d|%d", f, tt, d)] {
 										if ev < r.StatusEv {
-											sig = "the sample is on one configured node and its series row only on another"
+											sig = "no series row at all on the sample's node, its series row is on another configured node"
 											have = append(have, fmt.Sprintf("(on node %s: %d|%d|%d)", on, f, tt, d))
 										}
 									}
